@@ -78,6 +78,23 @@ CHECKS = {
         design_ref='DESIGN.md §5 C07',
         note='Trusted base: vf/reflex.py, my reading of Lua 5.2 §3.1 plus the PICO-8 extensions the properties name. Sources it rejects are out of domain.',
         technique='runtime monitoring: differential oracle against an independent reference lexer'),
+    'C08': dict(
+        category='exploration',
+        text='Programs are drawn from the dialect grammar together with their expected tree, rendered in random layouts and parsed by the real parser; the exposed '
+             'tree is normalised and compared node by node with the expectation, and everything after root.end_pos must be whitespace/comment. Sampled up to '
+             'nesting depth 3 (thorough 5).',
+        design_ref='DESIGN.md §5 C08, Appendix A/B',
+        note='Trusted base: vf/progen.py (grammar + expected trees) and vf/layout.py; every rendering is re-lexed by the reference lexer and discarded if it '
+             'does not yield the intended tokens.',
+        technique='runtime monitoring: generator-known expected tree compared with the exposed AST (reference-model oracle)'),
+    'C09': dict(
+        category='exploration',
+        text='The real formatter (library and CLI, widths 0-8) runs on generated valid programs; input and output are aligned token by token under the reference '
+             'lexer (comments included), line scopes and the token count are checked; mutants that lex but do not parse to the end must be refused or written '
+             'completely by every tree-driven writer and by the CLI (with --overwrite: input intact).',
+        design_ref='DESIGN.md §5 C09',
+        note='Trusted base: vf/reflex.py, vf/progen.py line-scope bookkeeping. Strings by value, comments modulo inner whitespace.',
+        technique='runtime monitoring: differential token alignment (reference lexer) + mutation workload for the no-silent-loss clause'),
 }
 
 NOT_BUILT = 'check not built yet in this session (design in DESIGN.md §5); not claimed until its monitor runs silent on the unchanged tree'
